@@ -17,7 +17,7 @@ impl Prop for C14 {
         "fault_enumeration"
     }
     fn rule(&self) -> String {
-        "run = seeded valid writer history with Flush ops at PRNG-chosen points (all layer sets and levels, every entropy class incl. zeros). The sink records the stored length at the instant each flush returns. Crash fault: for EVERY flush of the run the device dies immediately after the flush returned (image = bytes stored so far) and at later points up to the next flush (every later length on small images, 8 seeded lengths otherwise). Each crash image is repaired in unauthenticated mode (and in authenticated mode when encrypted) and read back. Oracle: every file holds at least the bytes appended before that flush (authenticated mode: at least the bytes lying in complete encryption chunks, computed from the stream geometry for encrypt-only archives) and never anything that is not a prefix of what was appended in total. distinct_nontrivial = distinct (variant, layers, level bucket, data classes, flush position class, mode, later-cut?) signatures.".into()
+        "run = seeded valid writer history with Flush ops at PRNG-chosen points (one compressed production-size run in 30: 1800..2600 flushes, each after 1.5..2.5 KB of incompressible data, inside one compression block; four of those flushes are judged) (all layer sets and levels, every entropy class incl. zeros). The sink records the stored length at the instant each flush returns. Crash fault: for EVERY flush of the run the device dies immediately after the flush returned (image = bytes stored so far) and at later points up to the next flush (every later length on small images, 8 seeded lengths otherwise). Each crash image is repaired in unauthenticated mode (and in authenticated mode when encrypted) and read back. Oracle: every file holds at least the bytes appended before that flush (authenticated mode: at least the bytes lying in complete encryption chunks, computed from the stream geometry for encrypt-only archives) and never anything that is not a prefix of what was appended in total. distinct_nontrivial = distinct (variant, layers, level bucket, data classes, flush position class, mode, later-cut?) signatures.".into()
     }
     fn assumptions(&self) -> Vec<String> {
         vec![
@@ -74,6 +74,23 @@ impl Prop for C14 {
                 }
             }
         }
+        if big && cfg.comp() && rng.chance(1, 30) {
+            // production constants: thousands of flushes, each after a small piece of incompressible data, inside ONE
+            // compression block (every data-bearing flush closes a meta-block and costs the stream a few bytes)
+            cfg.level = *rng.pick(&[0u32, 1, 2, 5, 5, 9]);
+            let piece = rng.range(1500, 2500) as usize;
+            let n = rng.range(1800, 2600) as usize;
+            ops = vec![WOp::Start { f: 0, name: Name::lit("dense") }];
+            for _ in 0..n {
+                ops.push(WOp::Append { f: 0, data: Data::Rand { n: piece, seed: rng.u64() }, src: Src::exact() });
+                ops.push(WOp::Flush);
+            }
+            if rng.chance(1, 2) {
+                ops.push(WOp::End { f: 0 });
+                ops.push(WOp::Finalize);
+            }
+            aligned = None;
+        }
         let mut case = Case::new("C14", cfg, ops);
         // the destination may also split and interrupt transfers while flushes happen
         if !big && rng.chance(1, 3) {
@@ -111,13 +128,28 @@ impl Prop for C14 {
             c.dedup();
             c
         };
+        // histories with very many flushes: the first, the last and two seeded ones are judged (crash exactly at the flush)
+        let many = w.flush_marks.len() > 40;
+        let picked: Vec<usize> = if many {
+            let n = w.flush_marks.len();
+            vec![0, n - 1, lrng.usize_below(n), n - 1 - lrng.usize_below(n / 4 + 1)]
+        } else {
+            Vec::new()
+        };
         for (fi, (op_idx, mark)) in w.flush_marks.iter().enumerate() {
+            if many && !picked.contains(&fi) {
+                continue;
+            }
             let before = model_prefix(&case.ops, *op_idx);
             let next_mark = w.flush_marks.get(fi + 1).map(|m| m.1).unwrap_or(image.len());
             // crash right after the flush, and at later points before the next flush
             let mut cuts = vec![*mark];
             if next_mark > *mark {
-                if next_mark - mark <= 48 {
+                if many {
+                    if fi + 1 == w.flush_marks.len() {
+                        cuts.push(next_mark - 1);
+                    }
+                } else if next_mark - mark <= 48 {
                     cuts.extend(mark + 1..next_mark);
                 } else {
                     for _ in 0..8 {
